@@ -188,6 +188,9 @@ class PyFE:
             raise Unsupported('float write of %r' % type(v))
         if isinstance(v, PyFloat):
             raise Outcome('error', 'struct.error: required argument is not an integer')
+        if isinstance(v, (list, tuple, dict, str, bytes)) or v is None:
+            # what the real buffer does with a list / string / None where a number belongs
+            raise Outcome('error', 'struct.error: required argument is not an integer (%s)' % type(v).__name__)
         e = to_ext(v)
         if t in SIGNED:
             lo, hi = -(1 << (w - 1)), (1 << (w - 1)) - 1
@@ -363,6 +366,20 @@ class PyFE:
             pass
         elif isinstance(st, ast.Return):
             raise _Return(self.ev(st.value, env) if st.value else None)
+        elif isinstance(st, ast.Raise):
+            # the emitted code refuses the value: an exception outcome (its arguments are not evaluated: only the class matters)
+            exc = st.exc
+            name = 'exception'
+            if isinstance(exc, ast.Call):
+                exc = exc.func
+            if isinstance(exc, ast.Name):
+                name = exc.id
+            elif isinstance(exc, ast.Attribute):
+                name = exc.attr
+            raise Outcome('error', 'raise %s' % name)
+        elif isinstance(st, ast.Assert):
+            if not self.truth(self.ev(st.test, env)):
+                raise Outcome('error', 'AssertionError')
         else:
             raise Unsupported('statement %s' % type(st).__name__)
 
